@@ -203,6 +203,25 @@ class AaveAdapter:
                     dev = cls in DEVIANT or mismatch or bad_flag or (cls == "all")
                     out.append(Op(f"{n}.supply[{t.name},{cls},{'C' if coll else 'N'}]",
                                   lambda c, t=t, cls=cls, coll=coll: m.supply(t, amount(cls, bal(t)), coll), dev, f"{n}.supply"))
+        # a small stable supply next to big collateral, and a debt in an EXPENSIVE token: repaying that debt out of the small supply is capped by what the
+        # supply is worth (the amounts of the two tokens are not comparable as numbers)
+        if USDC not in m._supplies:
+            out.append(Op(f"{n}.supply[USDC,small,C]", lambda c: m.supply(USDC, Decimal(100), True), True, f"{n}.supply"))
+        if WBTC not in m._supplies:
+            out.append(Op(f"{n}.supply[WBTC,part,C]", lambda c: m.supply(WBTC, bal(WBTC) / 3, True), True, f"{n}.supply"))
+        if m._supplies and WETH not in m._borrows:
+            def bw_weth(c):
+                r = self.ref_risk()
+                room = r["ltv_sum"] - r["debt"]
+                room = Decimal(room.numerator) / Decimal(room.denominator) / c.price_row()["WETH"]
+                return m.borrow(WETH, max(room, Decimal(0)) / 3 if room > 0 else Decimal(1))
+            out.append(Op(f"{n}.borrow[WETH,third]", bw_weth, True, f"{n}.borrow"))
+        if WETH in m._borrows and USDC in m._supplies:
+            for cls in ("part", "None"):
+                def rp_cheap(c, cls=cls):
+                    debt = m._borrows[WETH].base_amount * m._market_status.data["WETH"].variable_borrow_index
+                    return m.repay(WETH, None if cls == "None" else debt / 3, repay_with_collateral=True, repay_collateral_token=USDC)
+                out.append(Op(f"{n}.repay[WETH,{cls},USDC]", rp_cheap, True, f"{n}.repay"))
         for t in list(m._supplies.keys())[:3] + [DAI]:
             known = t in m._supplies
             for cls in ("part", "None", "all", "over", "0", "dust"):
